@@ -87,24 +87,75 @@ func checkC16(w *World, r *Report) {
 	if fn := w.SSAFunc(hc); fn == nil || cd == nil || uc == nil {
 		r.Undecided("R16.1", "method:(*client/listener.AbstractListener).HandleConnection", "-", "anchor unresolved")
 	} else {
-		var direct, up ssa.Instruction
+		var direct ssa.Instruction
 		for _, c := range callsIn(fn) {
-			switch sCallee(c) {
-			case cd:
+			if sCallee(c) == cd {
 				direct = c
-			case uc:
-				up = c
+			}
+		}
+		// where the upstreams are connected: in HandleConnection itself, or in helpers that are only called from it
+		var ups []ssa.Instruction // call sites inside HandleConnection that lead to Upstreams.Connect
+		bad := ""
+		var visit func(g *ssa.Function, depth int)
+		seenG := map[*ssa.Function]bool{}
+		visit = func(g *ssa.Function, depth int) {
+			if seenG[g] || depth > 3 {
+				return
+			}
+			seenG[g] = true
+			if g == fn {
+				return
+			}
+			// every static caller of the helper must itself be confined
+			ncall := 0
+			for caller := range allModuleFuncs(w, w.SSA()) {
+				for _, c := range callsIn(caller) {
+					if c.Common().StaticCallee() != g {
+						continue
+					}
+					ncall++
+					if caller == fn {
+						ups = append(ups, c)
+					} else {
+						visit(caller, depth+1)
+						if !seenG[caller] || caller.Pkg == nil || caller.Pkg.Pkg.Path() != modPath+"/internal/client/listener" {
+							bad = fmt.Sprintf("%s: %s, which connects through the upstreams, is also called from %s", w.Pos(c.Pos()), ssaFuncKey(g), ssaFuncKey(caller))
+						}
+					}
+				}
+			}
+			if ncall == 0 && bad == "" {
+				bad = ssaFuncKey(g) + " connects through the upstreams but has no static caller (HandleConnection does not reach it)"
+			}
+		}
+		for g := range allModuleFuncs(w, w.SSA()) {
+			if g.Pkg == nil || g.Pkg.Pkg.Path() != modPath+"/internal/client/listener" {
+				continue
+			}
+			for _, c := range callsIn(g) {
+				if sCallee(c) == uc {
+					if g == fn {
+						ups = append(ups, c)
+					} else {
+						visit(g, 0)
+					}
+				}
 			}
 		}
 		key := "method:(*client/listener.AbstractListener).HandleConnection|direct-first"
 		switch {
-		case up == nil:
-			r.Violate("R16.1", key, w.Pos(hc.Pos()), "HandleConnection never connects through the upstreams")
+		case len(ups) == 0:
+			r.Violate("R16.1", key, w.Pos(hc.Pos()), "HandleConnection never connects through the upstreams"+mapStr(bad != "", " ("+bad+")"))
 		case direct == nil:
 			r.Violate("R16.1", key, w.Pos(hc.Pos()), "HandleConnection no longer tries the direct forward address")
 		default:
-			okd := dominatedByCond(fn, up, func(v ssa.Value) bool { return v == direct.(ssa.Value) }, false)
-			r.Check(okd, "R16.1", key, w.Pos(up.Pos()), "Upstreams.Connect is reachable only on the false edge of ConnectDirectly", "the upstream connect is not confined to the path where the direct forward attempt returned false")
+			okd := bad == ""
+			for _, up := range ups {
+				if !dominatedByCond(fn, up, func(v ssa.Value) bool { return v == direct.(ssa.Value) }, false) {
+					okd = false
+				}
+			}
+			r.Check(okd, "R16.1", key, w.Pos(ups[0].Pos()), "Upstreams.Connect (directly or through helpers only HandleConnection calls) is reachable only on the false edge of ConnectDirectly", "the upstream connect is not confined to the path where the direct forward attempt returned false"+mapStr(bad != "", ": "+bad))
 		}
 	}
 
@@ -386,6 +437,34 @@ func ruleSharedSession(w *World, r *Report, rule string, uc, openM *types.Func) 
 		}
 		nopen++
 		just := false
+		// a predicate helper called inside the critical section: `if ul.disconnected() { ... }`
+		for v, t := range e.State.Facts {
+			hc, ok := v.(*ssa.Call)
+			if !ok || !region[hc] {
+				continue
+			}
+			h := hc.Call.StaticCallee()
+			if h == nil || !inModule(h) {
+				continue
+			}
+			if predicateHelperImplies(h, t, func(facts map[ssa.Value]bool) bool {
+				for v2, t2 := range facts {
+					if x, eq, ok := nilTest(v2); ok && t2 == eq && isLoadOfField(x, connF) {
+						return true
+					}
+					if c, ok := v2.(*ssa.Call); ok && t2 && c.Call.IsInvoke() && c.Call.Method.Name() == "Closed" {
+						for _, root := range provenance(c.Call.Value, provOpts{}) {
+							if isLoadOfField(root, connF) {
+								return true
+							}
+						}
+					}
+				}
+				return false
+			}) {
+				just = true
+			}
+		}
 		for v, t := range e.State.Facts {
 			// the test must look at the shared field while the mutex is held: a test made before Lock() is
 			// stale by the time the lock is obtained (every waiting caller has already decided to dial)
